@@ -33,7 +33,7 @@ CASE_TIMEOUT = 90
 def cases(tier, seed):
     n = 3600 if tier == "thorough" else 170
     out = []
-    for cls, sp in __import__("vlib.gen", fromlist=["x"]).stream(seed, n, ["K1", "K2", "K3", "K4", "K5", "K6", "K7", "K8", "K9"], "c27"):
+    for cls, sp in __import__("vlib.gen", fromlist=["x"]).stream(seed, n, ["K1", "K2", "K3", "K4", "K5", "K6", "K7", "K8", "K9", "K12"], "c27"):
         out.append({"cls": "insitu/" + cls, "kind": "insitu", "spec": sp})
     m = 3000 if tier == "thorough" else 200
     for i in range(m):
